@@ -98,8 +98,29 @@ def run(ctx):
     ctx.floor("R1", 30)
 
     # ---- R2 averaged codes -------------------------------------------------------------------
-    ca = I.global_name("fasta", "_code_average")
-    s_ca = fsite(ctx, "fasta._code_average")
+    # the averaging helper: the function of fasta with two parameters that every module-level "averaged code" definition
+    # reaches (found through the call graph, not by its name)
+    cg = ctx.src.callgraph()
+    import networkx as nx
+    mod_calls = set()
+    for st in ctx.src.module("fasta").tree.body:
+        if isinstance(st, ast.Expr) and isinstance(st.value, ast.Call) and isinstance(st.value.func, ast.Name):
+            r_ = ctx.src.resolve("fasta", st.value.func.id)
+            if r_ and r_[0] == "func":
+                mod_calls.add(r_[1])
+    cands = set()
+    for q_ in mod_calls:
+        for d_ in (nx.descendants(cg, q_) if q_ in cg else ()):
+            a_ = ctx.src.func(d_).node.args
+            if len(a_.args) == 2 and not a_.defaults and d_.startswith("fasta.") and d_.count(".") == 1:
+                cands.add(d_)
+    if len(cands) > 1:
+        cands = {c_ for c_ in cands if c_.rsplit(".", 1)[-1].startswith("_")} or cands      # a private helper, not the public API
+    if len(cands) != 1:
+        raise AnalysisError(f"averaging helper of fasta not identified (candidates {sorted(cands)})")
+    ca_q = sorted(cands)[0]
+    ca = I.global_name(*ca_q.split(".", 1))
+    s_ca = fsite(ctx, ca_q)
     for bases in ("AB", "ABC", "A", "AAB"):
         f, v, c = I.call(ca, [bases, dict(res)], {})
         vol, ch, atoms = expect(bases)
@@ -156,8 +177,14 @@ def run(ctx):
         got = I.lib.iterate(I, I.call(rf, [list(lines)], {}))
         ctx.check(list(got) == want, "R4", f"read_fasta on {lines!r}",
                   f"records {got!r}, expected {want!r} (one record per '>' header, lines concatenated, last record flushed)", s_rf)
-    g = I.global_name("fasta", "_guess_type_from_filename")
-    s_g = fsite(ctx, "fasta._guess_type_from_filename")
+    # the function that chooses the sequence type from the file name: what Sequence.load and loadall both call first
+    from .common import callees_in_common
+    gq = [q_ for q_ in callees_in_common(ctx, "fasta.Sequence.load", "fasta.Sequence.loadall", exclude=("fasta.read_fasta",))
+          if len(ctx.src.func(q_).node.args.args) == 2 and "Sequence" not in q_]
+    if len(gq) != 1:
+        raise AnalysisError(f"file-type helper of Sequence.load/loadall not identified (candidates {gq})")
+    g = I.global_name(*gq[0].split(".", 1))
+    s_g = fsite(ctx, gq[0])
     for fn, typ, want in (("x.fna", None, "dna"), ("x.ffn", None, "dna"), ("x.faa", None, "aa"), ("x.frn", None, "rna"),
                           ("x.fasta", None, "aa"), ("x.fna", "rna", "rna"),
                           ("GCF_000005845.2_ASM584v2_genomic.fna", None, "dna"), ("run.2/prot.v1.faa", None, "aa"),
